@@ -1,3 +1,174 @@
-import SshuttleModel.Code.Tunnel
+/-
+C01 — Tunnelled TCP payload is delivered intact, in order, to the right peer.
+
+Property theorems over `Code/Tunnel.lean` (the two tunnel ends, any number of flows, the
+frame FIFOs, endpoint sockets with ghost logs).  Helper lemmas: `Lemmas/FrameQ`, `DirInv`,
+`WrapRefine`, `WrapGrows`, `TunnelInv`, `TunnelStep`.
+-/
+import SshuttleModel.Lemmas.TunnelStep
+
 namespace Sshuttle.Tunnel
+open Sshuttle.Mux (Frame)
+open Sshuttle.Wrap
+
+/-- What reached each endpoint is a prefix of what the tunnel read from the other endpoint of
+the same flow. -/
+def Safe (w : World) : Prop :=
+  ∀ (i : Nat) (f : Flow), w.flows[i]? = some f →
+    f.dst.delivered <+: f.app.consumed ∧ f.app.delivered <+: f.dst.consumed
+
+theorem WInv.safe {w : World} (h : WInv w) : Safe w :=
+  fun i f hi => by
+    have hf := h.flows i f hi
+    have h1 := hf.up.pre
+    have h2 := hf.down.pre
+    constructor
+    · have e1 : (upSink f).delivered = f.dst.delivered := by unfold upSink; split <;> rfl
+      have e2 : (upSrc w.cm f).consumed = f.app.consumed := by unfold upSrc; split <;> rfl
+      rw [e1, e2] at h1; exact h1
+    · have e1 : (downSink f).delivered = f.app.delivered := by unfold downSink; split <;> rfl
+      have e2 : (downSrc w.sm f).consumed = f.dst.consumed := by unfold downSrc; split <;> rfl
+      rw [e1, e2] at h2; exact h2
+
+/-- The invariant carried along a run: safety always; the full world invariant while every
+process is alive. -/
+def RunInv (w : World) : Prop := Safe w ∧ (w.died = none → WInv w)
+
+theorem chans_step_prefix (w : World) (st : Step) : chans w <+: chans (w.step st) := by
+  unfold World.step
+  split
+  · exact List.prefix_refl _
+  · split
+    · exact List.prefix_refl _
+    · exact chans_stepRaw_prefix w st
+
+theorem chans_run_prefix (w : World) (steps : List Step) : chans w <+: chans (w.run steps) := by
+  induction steps generalizing w with
+  | nil => exact List.prefix_refl _
+  | cons st rest ih =>
+    simp only [World.run, List.foldl_cons]
+    exact (chans_step_prefix w st).trans (ih (w.step st))
+
+theorem RunInv.step {w : World} (h : RunInv w) (st : Step) (hg : GoodStep st)
+    (hn : (chans (w.step st)).Nodup) : RunInv (w.step st) := by
+  unfold World.step at hn ⊢
+  by_cases hd : w.died.isSome = true
+  · rw [if_pos hd]
+    exact h
+  · rw [if_neg hd] at hn ⊢
+    have hd0 : w.died = none := by simpa using hd
+    by_cases hd1 : (w.stepRaw st).died.isSome = true
+    · rw [if_pos hd1]
+      refine ⟨h.1, ?_⟩
+      intro hnone
+      simp only at hnone
+      rw [hnone] at hd1; simp at hd1
+    · rw [if_neg hd1] at hn ⊢
+      have hw := (h.2 hd0).stepRaw hd0 st hg hn (by simpa using hd1)
+      exact ⟨hw.safe, fun _ => hw⟩
+
+theorem RunInv.run {w : World} (h : RunInv w) (steps : List Step) (hg : ∀ st ∈ steps, GoodStep st)
+    (hn : (chans (w.run steps)).Nodup) : RunInv (w.run steps) := by
+  induction steps generalizing w with
+  | nil => exact h
+  | cons st rest ih =>
+    simp only [World.run, List.foldl_cons] at hn ⊢
+    have hn1 : (chans (w.step st)).Nodup :=
+      nodup_of_prefix (chans_run_prefix (w.step st) rest) hn
+    exact ih (h.step st (hg st (by simp)) hn1) (fun s hs => hg s (by simp [hs])) hn
+
+/-- A world before any connection has been accepted: no flows, and only control frames queued
+(the initial PING of each `Mux`, the server's ROUTES message). -/
+def Fresh (w : World) : Prop :=
+  w.flows = [] ∧ (∀ fr ∈ w.cm.out, isStreamCmd fr.cmd = false) ∧ (∀ fr ∈ w.sm.out, isStreamCmd fr.cmd = false)
+
+theorem Fresh.runInv {w : World} (h : Fresh w) : RunInv w := by
+  obtain ⟨h1, h2, h3⟩ := h
+  refine ⟨fun i f hi => by rw [h1] at hi; simp at hi, fun _ => ⟨?_, ?_, ?_⟩⟩
+  · intro i f hi; rw [h1] at hi; simp at hi
+  · intro fr hfr hs; rw [h2 fr hfr] at hs; cases hs
+  · intro fr hfr hs; rw [h3 fr hfr] at hs; cases hs
+
+/-- Everything an endpoint ever wrote: what the tunnel has read plus what is still pending. -/
+def written (e : ESock) : Bytes := e.consumed ++ e.pending
+
+/-- **C01 (safety), full strength.**  Start from any world with no flows yet.  For EVERY
+schedule of steps — accepts, `Proxy.callback`s on either end with any recv/send grant,
+would-block, EPIPE, reset or connect errno, `pre_select`s, frame deliveries, removal of dead
+handlers, `check_fullness` (latency control on or off, any buffer size), frames of other flow
+kinds, endpoint writes of any size and closes, in any interleaving and for any number of
+concurrent flows — the bytes the server has handed to the destination of a flow are a prefix
+of the bytes the application of THAT flow wrote, and the bytes handed back to the application
+are a prefix of what that flow's destination wrote.  Nothing is reordered, duplicated,
+altered or taken from another connection.
+
+Hypotheses: other flow kinds never inject TCP stream frames (`GoodStep`), and the flow ids
+handed out during the run are pairwise distinct (true for the first MAX_CHANNEL flows of a
+session by `C06_fresh_before_wrap`; re-use after a full cursor cycle is DESIGN F19). -/
+theorem C01_prefix (w0 : World) (h0 : Fresh w0) (steps : List Step)
+    (hg : ∀ st ∈ steps, GoodStep st) (hn : (chans (w0.run steps)).Nodup) :
+    ∀ f ∈ (w0.run steps).flows,
+      f.dst.delivered <+: written f.app ∧ f.app.delivered <+: written f.dst := by
+  have h := (h0.runInv.run steps hg hn).1
+  intro f hf
+  obtain ⟨i, hi⟩ := List.getElem?_of_mem hf
+  obtain ⟨h1, h2⟩ := h i f hi
+  exact ⟨h1.trans (List.prefix_append _ _), h2.trans (List.prefix_append _ _)⟩
+
+/-- **C01 conservation (no byte lost or duplicated while the flow can still deliver).**
+As long as the destination socket of a flow has not been shut down, the bytes read from the
+application are EXACTLY: what the destination received, then what the server-side wrapper
+buffers, then the payloads of this flow's DATA frames still in the client → server queue, then
+what the client-side wrapper buffers — plus a tail `lost` that is non-empty only after the
+client stopped reading from the application (it discarded its buffer on STOP_SENDING or was
+torn down).  Symmetrically for the other direction. -/
+theorem C01_conservation (w0 : World) (h0 : Fresh w0) (steps : List Step)
+    (hg : ∀ st ∈ steps, GoodStep st) (hn : (chans (w0.run steps)).Nodup)
+    (halive : (w0.run steps).died = none) :
+    ∀ f ∈ (w0.run steps).flows,
+      (f.dst.sawShut = true ∨ ∃ lost,
+        f.app.consumed = f.dst.delivered ++ (upSink f).buf ++ dataOf f.chan (w0.run steps).cm.out ++
+          (upSrc (w0.run steps).cm f).buf ++ lost ∧
+        (lost ≠ [] → (upSrc (w0.run steps).cm f).present = false ∨ (upSrc (w0.run steps).cm f).shutR = true)) ∧
+      (f.app.sawShut = true ∨ ∃ lost,
+        f.dst.consumed = f.app.delivered ++ (downSink f).buf ++ dataOf f.chan (w0.run steps).sm.out ++
+          (downSrc (w0.run steps).sm f).buf ++ lost ∧
+        (lost ≠ [] → (downSrc (w0.run steps).sm f).present = false ∨ (downSrc (w0.run steps).sm f).shutR = true)) := by
+  have hw := (h0.runInv.run steps hg hn).2 halive
+  intro f hf
+  obtain ⟨i, hi⟩ := List.getElem?_of_mem hf
+  have hfo := hw.flows i f hi
+  have eU1 : (upSink f).delivered = f.dst.delivered := by unfold upSink; split <;> rfl
+  have eU2 : (upSink f).sawShut = f.dst.sawShut := by unfold upSink; split <;> rfl
+  have eU3 : (upSrc (w0.run steps).cm f).consumed = f.app.consumed := by unfold upSrc; split <;> rfl
+  have eU4 : (upSrc (w0.run steps).cm f).out = (w0.run steps).cm.out := upSrc_out _ _
+  have eD1 : (downSink f).delivered = f.app.delivered := by unfold downSink; split <;> rfl
+  have eD2 : (downSink f).sawShut = f.app.sawShut := by unfold downSink; split <;> rfl
+  have eD3 : (downSrc (w0.run steps).sm f).consumed = f.dst.consumed := by unfold downSrc; split <;> rfl
+  have eD4 : (downSrc (w0.run steps).sm f).out = (w0.run steps).sm.out := downSrc_out _ _
+  constructor
+  · rcases hfo.up.exact with h | ⟨lost, he, hl⟩
+    · left; rw [← eU2]; exact h
+    · right; exact ⟨lost, by rw [← eU1, ← eU3, ← eU4]; exact he, fun hne => (hl hne).2⟩
+  · rcases hfo.down.exact with h | ⟨lost, he, hl⟩
+    · left; rw [← eD2]; exact h
+    · right; exact ⟨lost, by rw [← eD1, ← eD3, ← eD4]; exact he, fun hne => (hl hne).2⟩
+
+/-- Non-vacuity: a concrete schedule with two concurrent flows, a payload crossing the 2048-byte
+frame cut, a short write and a would-block reaches a state in which both flows have delivered
+different bytes, from a `Fresh` world, with distinct ids and only good steps. -/
+example :
+    let w0 : World := { cm := ({} : MuxL).send 0 Generated.CMD_PING [1], sm := ({} : MuxL).send 0 Generated.CMD_PING [1] }
+    let big : Bytes := List.replicate 2100 7
+    let steps : List Step :=
+      [.accept, .accept, .appWrite 0 big, .appWrite 1 [9, 9],
+       .cb .client 0 { recv := .data 65536 }, .cb .client 1 { recv := .data 1 },
+       .cb .client 0 {}, .deliver .server .ok, .deliver .server .ok, .deliver .server (.errno 115 0),
+       .deliver .server .ok, .deliver .server .ok, .deliver .server .ok,
+       .cb .server 0 { send := .sent 5 }, .cb .server 0 { send := .eagain }, .cb .server 0 { send := .sent 4000 },
+       .cb .server 1 { conn := .ok, send := .sent 10 }]
+    Fresh w0 ∧ (chans (w0.run steps)).Nodup ∧
+    ((w0.run steps).flows.map fun f => f.dst.delivered.length) = [2048, 1] := by
+  refine ⟨⟨rfl, by decide, by decide⟩, by decide +kernel, by decide +kernel⟩
+
 end Sshuttle.Tunnel
